@@ -429,6 +429,10 @@ class Gen:
         if ty == "complex" and not self.allow_complex:
             ty = "float"
         nm = self.fresh()
+        olds = [k for k, i in self.vars.items() if i[0] in ("scalar", "bool", "str")]
+        if olds and self.r.random() < 0.08:
+            nm = self.r.choice(olds)          # declared again: later uses see the new value
+            self.features.add("redeclared-scalar")
         if ty == "bool":
             b = self.r.choice(["True", "False"])
             self.vars[nm] = ("bool", b == "True")
@@ -456,6 +460,10 @@ class Gen:
         if with_params and ty == "int" and getattr(self, "float_param_values", True):
             ty = "float"       # instantiation values are generic reals: keep parameters out of int arrays
         nm = name or self.fresh(self.r.choice(["A", "U", "M", "arr", "B1"]))
+        olda = [k for k, i in self.vars.items() if i[0] == "array"]
+        if name is None and olda and self.r.random() < 0.1:
+            nm = self.r.choice(olda)          # the array name is declared again
+            self.features.add("redeclared-array")
         rows = rows or self.r.choice([1, 1, 2, 2, 3])
         cols = cols or self.r.choice([1, 2, 2, 3, 4])
         vals = []
